@@ -1,4 +1,6 @@
 """C02 - a perfect estimate receives the perfect score in every task."""
+import math
+
 import numpy as np
 
 import mir_eval.util as U
@@ -240,6 +242,41 @@ def transcription_unison_job():
                funcs=spec.funcs, bounds=dict(items=3, onsets='concrete'), exact_floats=False, timeout_s=600)
 
 
+def hierarchy_job(kind, counts, window=None, transitive=False):
+    """T-/L-measure of a hierarchy (levels with independent boundaries, so not necessarily nested) against its own copy: 1
+    whenever the definition is non-degenerate (some query frame has a reference triple), 0 by convention otherwise"""
+    import mir_eval.hierarchy as HIER
+    from . import c17 as C17
+    fs = 0.5
+    b = T.b_hier_counts(counts, counts, fs, 2.0, labels='repeat' if kind == 'lmeasure' else False,
+                        window='none' if window is None else window, transitive=transitive)
+
+    def build(ctx):
+        inp = b(ctx)
+        inp['est'] = T.cp(inp['ref'])
+        return inp
+
+    def body(A, inp):
+        rh = inp['ref'][0]
+        nfr = C17.n_frames(A, rh, fs)
+        seg = C17.frame_maps(A, rh, fs, nfr)
+        if kind == 'lmeasure':
+            res = HIER.lmeasure(rh, inp['ref'][1], inp['est'][0], inp['est'][1], **inp['kw'])
+            want = C17.brute_lmeasure(seg, inp['ref'][1], seg, inp['ref'][1], nfr)
+        else:
+            res = HIER.tmeasure(rh, inp['est'][0], **inp['kw'])
+            wf = None if window is None else int(math.floor(window / fs + 1e-9))
+            want = C17.brute_tmeasure(seg, seg, nfr, transitive, wf)
+        nondegenerate = want[2] == 1.0
+        A.observe('nondegenerate', nondegenerate)
+        for nm, v in zip(('P', 'R', 'F'), res):
+            A.observe(nm, v)
+            A.require(A.eq(v, 1 if nondegenerate else 0), 'hierarchy.%s.%s(x,x)==%s' % (kind, nm, '1' if nondegenerate else '0 (no frame triple)'))
+    return Job('C02', 'hierarchy.%s[self,levels %s,window=%s,transitive=%s]' % (kind, counts, window, transitive), build, body,
+               funcs=['hierarchy.' + kind, 'hierarchy._gauc', 'hierarchy._lca' if kind == 'tmeasure' else 'hierarchy._meet'], bounds=dict(levels=counts, frame_size=fs),
+               exact_floats=False, timeout_s=1500)
+
+
 def jobs(tier):
     q = tier == 'quick'
     js = []
@@ -285,6 +322,10 @@ def jobs(tier):
     js.append(velocity_job(1, None))
     js.append(velocity_unison_job())
     js.append(transcription_unison_job())
+    for counts in ([(2, 2), (1, 2)] if q else [(2, 2), (1, 2), (1, 3), (2, 3), (1, 2, 2)]):
+        js.append(hierarchy_job('lmeasure', counts))
+        js.append(hierarchy_job('tmeasure', counts))
+    js.append(hierarchy_job('tmeasure', (1, 2), window=1.0, transitive=True))
     js.append(goto_job(5))
     if not q:
         js.append(goto_job(6))
